@@ -377,7 +377,14 @@ fn record(out: &str, a: &Args) {
         let secb = w.0.into_vec();
         // read the FDE list back (hints from gimli)
         let ehbase: u64 = if size == 2 { 0 } else { 0x10_0000 + 16 * rng.below(0x1000) };
-        let hdrbase: u64 = if size == 2 { 0 } else { 0x20_0000 + 16 * rng.below(0x1000) };
+        // an unsigned data-relative table can only express targets above its base
+        let hdrbase: u64 = if size == 2 {
+            0
+        } else if datarel && !signed {
+            0x800
+        } else {
+            0x20_0000 + 16 * rng.below(0x1000)
+        };
         let mut bases = BaseAddresses::default();
         bases.eh_frame.section = Some(ehbase);
         bases.eh_frame_hdr.section = Some(hdrbase);
